@@ -130,16 +130,29 @@ def shape_chain(item, ob):
         for stree, sorder, sconds in specs:
             okk = (stree == tree and tuple(sorder) == tuple(order))
             def replay(model, stree=stree):
-                # surface program: operators o1..oK with assigned precedences; chain relation cannot be set from the surface, so only chain-free models are replayed
-                if any(d.name().startswith('chain_') and z3.is_true(model[d]) for d in model.decls()): return None
-                defs = ''.join(f'o{i + 1} := \\a, b -> [{i + 1}, a, b]; o{i + 1}::precedence = {lit_prec(model, i)}; ' for i in range(K))
-                if any(a == 'Right' for a in assocs): return None      # associativity of user functions is fixed Left from the surface
-                expr = ' '.join(['0'] + [f'o{i + 1} {i + 1}' for i in range(K)])
+                # kernel-level replay: the real ChainEvaluator driven with recorder operators of exactly these precedences,
+                # associativities and chain relation (nlrun `@chain`); the printed tree must be the reference tree
+                import struct
+                toks = []
+                for i in range(K):
+                    k = mval(model, PK[i])
+                    if k == 0: f = float('nan')
+                    elif k == 1: f = float('inf')
+                    elif k == 2: f = float('-inf')
+                    else:
+                        q = mval(model, PV[i]); f = float(q)
+                        if Fraction(f) != q: return None
+                    toks += ['%016x' % struct.unpack('<Q', struct.pack('<d', f))[0], assocs[i][0]]
+                for d in model.decls():
+                    nm = d.name()
+                    if nm.startswith('chain_') and z3.is_true(model[d]):
+                        a_, b_ = nm[len('chain_'):].split('__'); toks.append(f'{a_}:{b_}')
                 def rend(t):
-                    if isinstance(t, int): return str(t)
-                    op, args = t; return f'[{op[0] + 1}, {rend(args[0])}, {rend(args[1])}]'
-                return {'program': defs + expr, 'expect': {'equals': 'OK ' + rend(stree)}}
-            ob.check(name + f' impl {show(tree)} vs reference {show(stree)}', list(pc) + sconds, z3.BoolVal(okk), replay=replay, cls='C03/chain/grouping',
+                    if isinstance(t, int): return str(100 + t)
+                    op, args = t; return '["op:' + '_'.join(map(str, op)) + '", ' + ', '.join(rend(x) for x in args) + ']'
+                return {'program': f'@chain {K} ' + ' '.join(toks), 'expect': {'equals': 'K ' + rend(stree)}}
+            dy = [[z3.And(*[z3.And(z3.IsInt(PV[i] * 4), PV[i] >= -8, PV[i] <= 8) for i in range(K)])]]
+            ob.check(name + f' impl {show(tree)} vs reference {show(stree)}', list(pc) + sconds, z3.BoolVal(okk), replay=replay, cls='C03/chain/grouping', prefer=dy,
                      sample=f'impl tree {show(tree)}, application order {[show((i, a)) for i, a in order]}')
         if not specs: ob.missing(name, 'reference produced no case for a feasible implementation path')
         ob.witness('path')
